@@ -4,6 +4,7 @@
 -/
 import Yabgp.Lemmas.WalkerLemmas
 import Yabgp.Lemmas.WalkerTunnel
+import Yabgp.Lemmas.WalkerFlow
 import Yabgp.Model.Construct.SrtePmsi
 import Yabgp.Gen.AttrFlags
 
@@ -140,6 +141,34 @@ theorem C08c_tunnel (cfg : Cfg) (p : Tunnel.Policy) (w : Bytes) (h : Tunnel.cons
       simpa [be8, u8] using this
     · simp at h
 
+/-- IPv6 flow specification (construct-only, as repaired by fix_11): MP_REACH_NLRI for (2, 133) - every flow
+    specification with its 1- or 2-octet length, prefix components `length, offset, ceil((length-offset)/8) octets`,
+    operator lists ending with the end-of-list bit -/
+theorem C08c_flowspec6_reach (cfg : Cfg) (nh : Option Ip) (rules : List Flow6.Rule6) (w : Bytes)
+    (h : Flow6.constructReach6 nh rules = .ok w) : Seq (attrItem cfg) w := by
+  unfold Flow6.constructReach6 at h
+  cases hn : Flow6.nexthopBytes nh with
+  | none => simp [hn] at h
+  | some nb =>
+    cases hr : Flow6.constructRules6 rules with
+    | none => simp [hn, hr] at h
+    | some nl =>
+      simp only [hn, hr] at h
+      split at h
+      · simp at h
+      · refine seq_attrWrap cfg 14 _ w (Or.inl rfl) h ?_
+        have hnb : nb.length < 256 := by
+          cases nh with
+          | none => simp [Flow6.nexthopBytes] at hn; subst hn; simp
+          | some a =>
+            cases a with
+            | v4 n => simp only [Flow6.nexthopBytes] at hn; split at hn <;> simp at hn; subst hn; simp
+            | v6 n => simp only [Flow6.nexthopBytes] at hn; split at hn <;> simp at hn; subst hn; simp
+        have hok : nlriOk 2 133 nl = true := by
+          simp [nlriOk, (seq_constructRules6 rules nl hr).all]
+        have := mpReachOk_reachValue 2 133 nb nl (by decide) (by decide) hnb hok
+        simpa [attrValueOk, Mp.reachValue] using this
+
 /-- the constants the models hard-code are the ones of the source -/
 theorem C08c_generated_constants :
     [Gen.Attr.PMSITunnel_FLAG, Gen.Attr.PMSITunnel_ID, Gen.Attr.MpReachNLRI_FLAG, Gen.Attr.MpReachNLRI_ID,
@@ -171,6 +200,7 @@ example : ∃ w, Tunnel.constructTunnel
 end Yabgp
 
 #print axioms Yabgp.C08c_tunnel
+#print axioms Yabgp.C08c_flowspec6_reach
 #print axioms Yabgp.C08c_srte_reach
 #print axioms Yabgp.C08c_srte_unreach
 #print axioms Yabgp.C08c_pmsi
